@@ -281,9 +281,90 @@ type c37State struct {
 	mu        sync.Mutex
 	initQueue []combo          // combos selected for real endpoint initialization
 	initSeen  map[string]bool  // by shape+values
-	defectMin map[string]combo // minimal witness per violation signature
+	defectMin map[string]combo // minimal witness per reported violation signature
+	tries     map[string]int   // candidates of a signature submitted to the real handler
 	stride    int
 	accepted  int64
+
+	// the real creation path
+	manager *synchronization.Manager
+	server  *synchronizationsvc.Server
+	rootA   string
+	rootB   string
+	hmu     sync.Mutex
+	hcache  map[string]handlerVerdict
+}
+
+type handlerVerdict struct {
+	accepted bool
+	err      string
+}
+
+// maxConfirmations bounds how many candidates of one violation signature are
+// submitted to the real handler when it keeps rejecting them (the situation
+// after the creation path has been repaired).
+const maxConfirmations = 300
+
+func (c combo) key() string {
+	return string(c[0]) + "|" + string(c[1]) + "|" + string(c[2])
+}
+
+// startHandler creates the real Manager and gRPC service implementation.
+func (s *c37State) startHandler() error {
+	logger := logging.NewLogger(logging.LevelDisabled, io.Discard)
+	manager, err := synchronization.NewManager(logger)
+	if err != nil {
+		return err
+	}
+	s.manager = manager
+	s.server = synchronizationsvc.NewServer(manager)
+	s.rootA = filepath.Join(s.r.Scratch(), "handler-alpha")
+	s.rootB = filepath.Join(s.r.Scratch(), "handler-beta")
+	os.MkdirAll(s.rootA, 0o755)
+	os.MkdirAll(s.rootB, 0o755)
+	s.hcache = map[string]handlerVerdict{}
+	return nil
+}
+
+func (s *c37State) specification(cfgs [3]*synchronization.Configuration) *synchronizationsvc.CreationSpecification {
+	return &synchronizationsvc.CreationSpecification{
+		Alpha:              &url.URL{Kind: url.Kind_Synchronization, Protocol: url.Protocol_Local, Path: s.rootA},
+		Beta:               &url.URL{Kind: url.Kind_Synchronization, Protocol: url.Protocol_Local, Path: s.rootB},
+		Configuration:      cfgs[0],
+		ConfigurationAlpha: cfgs[1],
+		ConfigurationBeta:  cfgs[2],
+		Paused:             true, // validation and persistence only; endpoints are initialized separately
+	}
+}
+
+// handlerAccepts drives the real Server.Create (real Manager, paused session)
+// with the combination: this is the ground truth for "creation accepts".
+func (s *c37State) handlerAccepts(c combo) handlerVerdict {
+	k := c.key()
+	s.hmu.Lock()
+	v, ok := s.hcache[k]
+	s.hmu.Unlock()
+	if ok {
+		return v
+	}
+	cfgs := c.build(s.fields)
+	var resp *synchronizationsvc.CreateResponse
+	var cerr error
+	s.r.Guard(c.describe(s.fields), func() {
+		resp, cerr = s.server.Create(context.Background(), &synchronizationsvc.CreateRequest{Prompter: "verif-no-prompter", Specification: s.specification(cfgs)})
+	})
+	v = handlerVerdict{accepted: cerr == nil && resp != nil && resp.Session != ""}
+	if cerr != nil {
+		v.err = cerr.Error()
+	}
+	s.r.Count("handler_creations", 1)
+	if v.accepted {
+		s.r.Count("handler_accepted", 1)
+	}
+	s.hmu.Lock()
+	s.hcache[k] = v
+	s.hmu.Unlock()
+	return v
 }
 
 func sigKey(sig map[string]string) string {
@@ -398,25 +479,27 @@ func (s *c37State) evaluate(c combo, mergeOnRejected bool) {
 	}
 
 	if !ok {
-		r.Count("rejected_at_creation", 1)
+		r.Count("rejected_by_configuration_validation", 1)
 		_ = why
 		return
 	}
-	r.Count("accepted_at_creation", 1)
+	r.Count("accepted_by_configuration_validation", 1)
 	r.Distinct("accepted|" + c.shape(s.fields))
 
 	violated := false
 	for side := 1; side <= 2; side++ {
 		m := merged[side]
 		if err := m.EnsureValid(false); err != nil {
-			violated = true
 			sig := map[string]string{"rule": "accepted-but-merged-invalid", "field": fieldOfError(err.Error()), "side": cfgNames[side]}
-			s.report(c, sig, fmt.Sprintf("creation accepts the configurations, but the effective %s configuration is invalid: %v", cfgNames[side], err))
+			if s.report(c, sig, fmt.Sprintf("Server.Create accepts the configurations, but the effective %s configuration is invalid: %v", cfgNames[side], err)) {
+				violated = true
+			}
 		}
 		if effectivePortable(m) && m.DefaultFileMode&0o111 != 0 {
-			violated = true
 			sig := map[string]string{"rule": "portable-with-executable-default-file-mode", "field": "defaultFileMode", "side": cfgNames[side]}
-			s.report(c, sig, fmt.Sprintf("accepted combination yields effective default file mode 0%o with executable bits for %s under portable permissions", m.DefaultFileMode, cfgNames[side]))
+			if s.report(c, sig, fmt.Sprintf("combination accepted by Server.Create yields effective default file mode 0%o with executable bits for %s under portable permissions", m.DefaultFileMode, cfgNames[side])) {
+				violated = true
+			}
 		}
 	}
 
@@ -440,24 +523,46 @@ func (s *c37State) evaluate(c combo, mergeOnRejected bool) {
 	s.mu.Unlock()
 }
 
-// report files a violation once per signature with a minimized witness.
-func (s *c37State) report(c combo, sig map[string]string, what string) {
+// report handles a candidate violation: a combination that passes the three
+// Configuration.EnsureValid calls and breaks a rule. It becomes a violation
+// only if the real handler Server.Create accepts it; it is filed once per
+// signature with a minimized witness. The result says whether the candidate
+// counts as a violating accepted combination.
+func (s *c37State) report(c combo, sig map[string]string, what string) bool {
 	key := sigKey(sig)
+	s.r.Count("candidates:"+sig["rule"], 1)
 	s.mu.Lock()
-	_, seen := s.defectMin[key]
-	if !seen {
-		s.defectMin[key] = combo{}
+	if _, done := s.defectMin[key]; done {
+		s.mu.Unlock()
+		return true
 	}
+	if s.tries[key] >= maxConfirmations {
+		s.mu.Unlock()
+		s.r.Count("candidates_not_submitted_to_handler", 1)
+		return false
+	}
+	s.tries[key]++
 	s.mu.Unlock()
-	s.r.Count("violating_combinations:"+sig["rule"], 1)
-	if seen {
-		return
+
+	v := s.handlerAccepts(c)
+	if !v.accepted {
+		s.r.Count("candidates_rejected_by_real_handler", 1)
+		s.r.Note("last_handler_rejection", v.err)
+		return false
 	}
 	min := s.minimize(c, key)
+	if !s.handlerAccepts(min).accepted {
+		min = c
+	}
 	s.mu.Lock()
+	if _, done := s.defectMin[key]; done {
+		s.mu.Unlock()
+		return true
+	}
 	s.defectMin[key] = min
 	s.mu.Unlock()
-	s.r.Violation(sig, what, s.witness(min, map[string]any{"minimal": true, "first_seen_in": c.describe(s.fields)}))
+	s.r.Violation(sig, what, s.witness(min, map[string]any{"minimal": true, "accepted_by": "service/synchronization.Server.Create (real Manager, paused session)", "first_seen_in": c.describe(s.fields)}))
+	return true
 }
 
 // ---------------------------------------------------------------- enumeration
@@ -594,21 +699,11 @@ func (s *c37State) endpointForbidden(i int) bool {
 
 // ---------------------------------------------------------------- real handler
 
+// realHandler cross-checks the three validation routes on a sample and
+// returns the combinations of the endpoint-initialization queue that the real
+// handler accepts.
 func (s *c37State) realHandler(sample []combo) {
 	r := s.r
-	logger := logging.NewLogger(logging.LevelDisabled, io.Discard)
-	manager, err := synchronization.NewManager(logger)
-	if err != nil {
-		r.Inconclusive("manager-unavailable")
-		r.Note("manager_error", err.Error())
-		return
-	}
-	defer manager.Shutdown()
-	server := synchronizationsvc.NewServer(manager)
-	rootA := filepath.Join(r.Scratch(), "handler-alpha")
-	rootB := filepath.Join(r.Scratch(), "handler-beta")
-	os.MkdirAll(rootA, 0o755)
-	os.MkdirAll(rootB, 0o755)
 	sessionID, err := identifier.New(identifier.PrefixSynchronization)
 	if err != nil {
 		r.Inconclusive("identifier-unavailable")
@@ -617,35 +712,27 @@ func (s *c37State) realHandler(sample []combo) {
 	for _, c := range sample {
 		cfgs := c.build(s.fields)
 		want, _ := accepts(cfgs)
-		spec := &synchronizationsvc.CreationSpecification{
-			Alpha:              &url.URL{Kind: url.Kind_Synchronization, Protocol: url.Protocol_Local, Path: rootA},
-			Beta:               &url.URL{Kind: url.Kind_Synchronization, Protocol: url.Protocol_Local, Path: rootB},
-			Configuration:      cfgs[0],
-			ConfigurationAlpha: cfgs[1],
-			ConfigurationBeta:  cfgs[2],
-			Paused:             true, // validation and persistence only; endpoints are initialized separately below
-		}
-		var resp *synchronizationsvc.CreateResponse
-		var cerr error
-		r.Guard(c.describe(s.fields), func() {
-			resp, cerr = server.Create(context.Background(), &synchronizationsvc.CreateRequest{Prompter: "verif-no-prompter", Specification: spec})
-		})
-		r.Count("handler_creations", 1)
-		got := cerr == nil && resp != nil
-		if got {
-			r.Count("handler_accepted", 1)
-		}
-		// Session.EnsureValid on the session object creation would store.
+		v := s.handlerAccepts(c)
+		spec := s.specification(cfgs)
+		// Session.EnsureValid on the session object creation stores (and a
+		// restarted daemon validates when loading it).
 		sess := &synchronization.Session{
 			Identifier: sessionID, Version: synchronization.DefaultVersion,
 			CreationTime: timestamppb.Now(), Alpha: spec.Alpha, Beta: spec.Beta,
 			Configuration: cfgs[0], ConfigurationAlpha: cfgs[1], ConfigurationBeta: cfgs[2],
 		}
-		sessOK := sess.EnsureValid() == nil
-		if got != want || sessOK != want {
-			r.Violation(map[string]string{"rule": "creation-paths-disagree"},
-				fmt.Sprintf("Server.Create accepted=%v, Session.EnsureValid accepted=%v, the three Configuration.EnsureValid calls accepted=%v (error: %v)", got, sessOK, want, cerr),
-				s.witness(c, nil))
+		serr := sess.EnsureValid()
+		r.Count("handler_cross_checks", 1)
+		switch {
+		case v.accepted && !want:
+			r.Violation(map[string]string{"rule": "handler-accepts-invalid-part"},
+				"Server.Create accepts a specification one of whose three configurations fails Configuration.EnsureValid", s.witness(c, nil))
+		case v.accepted && serr != nil:
+			r.Violation(map[string]string{"rule": "created-session-fails-session-validation"},
+				fmt.Sprintf("Server.Create accepts a specification whose stored session fails Session.EnsureValid: %v", serr), s.witness(c, nil))
+		case !v.accepted && want:
+			// the handler is stricter than the per-configuration validation: allowed
+			r.Count("handler_stricter_than_configuration_validation", 1)
 		}
 	}
 }
@@ -691,8 +778,10 @@ func (s *c37State) realEndpoints() {
 					})
 					r.Count("local_endpoint_initializations", 1)
 					if lerr != nil {
-						r.Violation(map[string]string{"rule": "local-endpoint-rejects", "field": fieldOfError(lerr.Error()), "side": cfgNames[side]},
-							fmt.Sprintf("creation accepts, but local.NewEndpoint rejects the effective %s configuration: %v", cfgNames[side], lerr), s.witness(c, nil))
+						sig := map[string]string{"rule": "local-endpoint-rejects", "field": fieldOfError(lerr.Error()), "side": cfgNames[side]}
+						if s.firstOf(sig) {
+							r.Violation(sig, fmt.Sprintf("Server.Create accepts, but local.NewEndpoint rejects the effective %s configuration: %v", cfgNames[side], lerr), s.witness(c, nil))
+						}
 					} else {
 						r.Count("local_endpoint_accepted", 1)
 					}
@@ -715,9 +804,16 @@ func (s *c37State) realEndpoints() {
 					_ = serr
 					r.Count("remote_endpoint_initializations", 1)
 					if rerr != nil {
-						r.Violation(map[string]string{"rule": "remote-endpoint-rejects", "field": fieldOfError(rerr.Error()), "side": cfgNames[side]},
-							fmt.Sprintf("creation accepts, but the remote endpoint handshake rejects the effective %s configuration: %v (local.NewEndpoint error: %v)", cfgNames[side], rerr, lerr),
-							s.witness(s.minimizeFor(c, side), map[string]any{"remote_error": rerr.Error(), "local_error": fmt.Sprint(lerr), "first_seen_in": c.describe(s.fields)}))
+						sig := map[string]string{"rule": "remote-endpoint-rejects", "field": fieldOfError(rerr.Error()), "side": cfgNames[side]}
+						r.Count("remote_endpoint_rejections", 1)
+						if s.firstOf(sig) {
+							min := s.minimizeFor(c, side)
+							if !s.handlerAccepts(min).accepted {
+								min = c
+							}
+							r.Violation(sig, fmt.Sprintf("Server.Create accepts, but the remote endpoint handshake (remote.NewEndpoint <-> ServeEndpoint) rejects the effective %s configuration: %v (local.NewEndpoint error: %v)", cfgNames[side], rerr, lerr),
+								s.witness(min, map[string]any{"remote_error": rerr.Error(), "local_error": fmt.Sprint(lerr), "first_seen_in": c.describe(s.fields)}))
+						}
 					} else {
 						r.Count("remote_endpoint_accepted", 1)
 						r.Distinct("init|" + c.shape(s.fields) + "|" + cfgNames[side])
@@ -732,6 +828,19 @@ func (s *c37State) realEndpoints() {
 	}
 	close(ch)
 	wg.Wait()
+}
+
+// firstOf reports whether this is the first endpoint-level violation with the
+// given signature (they are filed once each; all are counted).
+func (s *c37State) firstOf(sig map[string]string) bool {
+	key := "endpoint|" + sigKey(sig)
+	s.mu.Lock()
+	defer s.mu.Unlock()
+	if s.initSeen[key] {
+		return false
+	}
+	s.initSeen[key] = true
+	return true
 }
 
 // minimizeFor reduces a combination whose merged configuration for the given
@@ -903,7 +1012,12 @@ func c37TextRoundTrips(r *vk.Run) {
 
 func c37() {
 	r := vk.Start("C37", "exploration")
-	s := &c37State{r: r, fields: buildFields(), byName: map[string]int{}, initSeen: map[string]bool{}, defectMin: map[string]combo{}}
+	s := &c37State{r: r, fields: buildFields(), byName: map[string]int{}, initSeen: map[string]bool{}, defectMin: map[string]combo{}, tries: map[string]int{}}
+	if err := s.startHandler(); err != nil {
+		fmt.Printf("ERROR: cannot create the real synchronization manager: %v\n", err)
+		r.Inconclusive("manager-unavailable")
+		r.Finish("no verdict: the real session manager could not be created", 1<<30)
+	}
 	for _, n := range []string{"permissionsMode", "defaultFileMode", "defaultDirectoryMode"} {
 		s.byName[n] = -1
 	}
@@ -915,7 +1029,7 @@ func c37() {
 	r.Note("domains", domains)
 	// stride so that roughly the requested number of accepted combinations
 	// get real endpoint initialization (accepted is about 45% of evaluated).
-	s.stride = r.Pick(160, 1200)
+	s.stride = r.Pick(120, 1000)
 
 	c37TextRoundTrips(r)
 	s.enumerate()
@@ -937,13 +1051,20 @@ func c37() {
 		sample = append(sample, cb)
 	}
 	s.realHandler(sample)
+	// Only combinations the real handler accepts go on to endpoint initialization.
+	var queue []combo
+	for _, c := range s.initQueue {
+		if s.handlerAccepts(c).accepted {
+			queue = append(queue, c)
+		}
+	}
+	s.initQueue = queue
 	s.realEndpoints()
 
 	for k, c := range s.defectMin {
-		if c[0] != nil {
-			r.Note("minimal:"+k, c.describe(s.fields))
-		}
+		r.Note("minimal:"+k, c.describe(s.fields))
 	}
+	s.manager.Shutdown()
 	stopProfile()
 	r.Assume("'creation accepts' is decided by the three Configuration.EnsureValid calls that CreationSpecification.ensureValid and Session.EnsureValid make; the real handler Server.Create (paused sessions, real Manager) and Session.EnsureValid are cross-checked against it on a sample")
 	r.Assume("ignore patterns are drawn from syntactically valid patterns only: configuration.go documents that patterns are validated at endpoint initialization, not at creation")
